@@ -7,7 +7,7 @@ Python only drives the real functions and records what they did.
 """
 from harness import core, enc
 from harness.tlcclean import clean as _clean
-from harness.watchdog import limited
+from harness.watchdog import CallTimeout, limited
 
 MC_CFG = """CONSTANT MaxN = %d
 CONSTANT MaxLen = %d
@@ -76,9 +76,10 @@ def _enc_outcome(fn, v):
     try:
         out = limited(lambda: fn(v), 1.0, what=fn.__name__)
     except Exception as e:
-        return {"ok": False, "exc": type(e).__name__}
+        # `raised`: the function itself refused the argument (a time-out is not a refusal)
+        return {"ok": False, "exc": type(e).__name__, "raised": not isinstance(e, CallTimeout)}
     if not isinstance(out, (bytes, bytearray)):
-        return {"ok": False, "exc": "returned:" + type(out).__name__}
+        return {"ok": False, "exc": "returned:" + type(out).__name__, "raised": False}
     return {"ok": True, "bytes": list(out)}
 
 
@@ -158,9 +159,7 @@ def byte_streams(ctx, produced):
     return out
 
 
-def records(ctx):
-    from ppci.utils import leb128
-
+def records(ctx, leb128):
     recs = []
     produced = []
     ints = integers(ctx)
@@ -226,7 +225,14 @@ class Engine:
             missing = [a for a in MC_ACTIONS if not ctx.cov["actions"].get("Leb128_MC." + a)]
             if missing:
                 raise core.tlcmod.MachineryError("Leb128_MC: actions never taken: %s" % missing)
-        recs = records(ctx)
+        try:
+            from ppci.utils import leb128
+            for name in ("signed_leb128_encode", "unsigned_leb128_encode", "signed_leb128_decode", "unsigned_leb128_decode"):
+                getattr(leb128, name)
+        except Exception as e:  # a changed tree may not even import: that is a failure of the property
+            ctx.violation("C20:import", "ppci.utils.leb128 cannot be used: %s: %s" % (type(e).__name__, e))
+            return
+        recs = records(ctx, leb128)
         if ctx.only is not None:
             recs = [r for r in recs if r["key"] == ctx.only["key"]]
         for r in recs:
